@@ -1,5 +1,5 @@
 (* C08 — users read only files their permission rules allow.  Statements only. *)
-From DT Require Import Lib.Bytes Lib.Split Model.C08_Perm Proofs.C08_Perm.
+From DT Require Import Lib.Bytes Lib.Split Model.C08_Perm Proofs.C08_Perm Model.C08_Path Proofs.C08_Path.
 
 (* Every rule - any pattern, ':' included (POSIX classes), bare or 'readfiles:'-prefixed, with or
    without '!' - is read as (readfiles, negate, pattern) of its meaning. *)
@@ -41,3 +41,24 @@ Example C08_example :
   /\ served (fun _ => true) (m (B"/var/log/secret/x.log")) true [B"^/.*"] rules (Some (B"/var/log/secret/x.log")) true = false
   /\ served (fun _ => true) (m (B"/etc/passwd")) true [B"^/.*"] None (Some (B"/etc/passwd")) true = true.
 Proof. vm_compute. repeat split; reflexivity. Qed.
+
+(* Path resolution (Model/C08_Path.v: the physical walk of open(2) / filepath.EvalSymlinks over an abstract file system -
+   symbolic links followed, ".." taken in the directory actually reached, ELOOP by fuel).  The path the permission rules
+   are matched against is canonical - a chain of real directories, ending in a directory or in a file - and a fixed point of
+   the walk: opening the requested path and opening the path that was checked reach the same file. *)
+Theorem C08_resolved_canonical : forall fs fuel req r, resolve fs fuel req = Some r -> canonical fs r.
+Proof. exact resolve_canonical. Qed.
+Theorem C08_resolve_idempotent : forall fs fuel req r, wf_fs fs -> resolve fs fuel req = Some r -> resolve fs 1 r = Some r.
+Proof. exact resolve_idempotent. Qed.
+Print Assumptions C08_resolve_idempotent.
+
+(* The order matters: cleaning the path lexically BEFORE the links are resolved (filepath.Abs first) checks a different
+   file than the one that is opened - ".." behind a directory link. *)
+Theorem C08_clean_first_refuted : exists fs req r1 r2,
+  resolve fs 40 req = Some r1 /\ resolve fs 40 (clean req) = Some r2 /\ r1 <> r2.
+Proof.
+  exists [([B"ok"], NDir); ([B"ok"; B"app.log"], NFile); ([B"rel"], NDir); ([B"rel"; B"v2"], NDir); ([B"rel"; B"v2"; B"logs"], NDir);
+          ([B"rel"; B"v2"; B"app.log"], NFile); ([B"ok"; B"current"], NLink false [B".."; B"rel"; B"v2"; B"logs"])],
+         [B"ok"; B"current"; B".."; B"app.log"], [B"rel"; B"v2"; B"app.log"], [B"ok"; B"app.log"].
+  vm_compute. repeat split; congruence.
+Qed.
